@@ -55,6 +55,11 @@ CLASSES = {
     "ast.Subscript#t": {"lineno": "int", "col_offset": "int", "end_lineno": "int", "end_col_offset": "int"},
     "ast.Attribute#t": {"lineno": "int", "col_offset": "int", "end_lineno": "int", "end_col_offset": "int"},
     "CmpOp": {"is:ast.In?": "bool"},
+    # parts of an f-string as the escape decoder reads them: text Constants, fields whose format spec is again an f-string (its parts: a list handed on whole)
+    "ast.Constant#sv": {"value": "str", "lineno": "int", "col_offset": "int", "end_lineno": "int", "end_col_offset": "int"},
+    "ast.FormattedValue#fs": {"format_spec": "opt[obj:ast.JoinedStr#fs]", "lineno": "int", "col_offset": "int", "end_lineno": "int", "end_col_offset": "int"},
+    "ast.JoinedStr#fs": {"values": "obj:OpaqueList"},
+    "OpaqueList": {"id": "int"},
     "ast.arg": {"arg": "str", "lineno": "int", "col_offset": "int", "end_lineno": "int", "end_col_offset": "int"},
     # string builders: the two fields that carry a pending `p` prefix from handle_fstring to concatenate_strings
     "ast.JoinedStr": {"values": "abslist[obj:StrPart]", "lineno": "int", "col_offset": "int", "end_lineno": "int", "end_col_offset": "int"},
@@ -642,6 +647,31 @@ def sf_tree_wf(ex, st, n):
     return z3.And(conj)
 
 
+PARTS_WF = z3.Function("parts_wf", z3.IntSort(), z3.BoolSort())
+
+
+def sf_parts_wf(ex, st, parts):
+    """every part of the f-string (and, through nested format specs, of the f-strings inside) carries well-formed positions.  Unfolded one level;
+    the parts of a nested spec stay behind the uninterpreted predicate on that list, which is what the recursive call requires"""
+    from engine.pyvals import PyComp, PyUnion
+    if isinstance(parts, PyObj) and parts.cls == "OpaqueList":
+        return PARTS_WF(parts.fields["id"])
+    if not isinstance(parts, PyComp):
+        from engine.pyvc import Unsupported
+        raise Unsupported("parts_wf of " + type(parts).__name__)
+    j = z3.Int("pw!j")
+    e = parts.at(j)
+    alts = e.alts if isinstance(e, PyUnion) else [e]
+    conj = []
+    for k, a in enumerate(alts):
+        c = [sf_node_wf(ex, st, a)]
+        fs = a.fields.get("format_spec") if isinstance(a, PyObj) else None
+        if isinstance(fs, PyObj) and "values" in fs.fields:
+            c.append(sf_parts_wf(ex, st, fs.fields["values"]))
+        conj.append(z3.Implies(e.kind == k, z3.And(c)) if isinstance(e, PyUnion) else z3.And(c))
+    return z3.ForAll([j], z3.Implies(z3.And(j >= 0, j < parts.length), z3.And(conj)))
+
+
 def sf_keys_are(ex, st, d, *names):
     """the dict literal has exactly these keys"""
     want = {z3.simplify(lift(n)).as_string() for n in names}
@@ -656,7 +686,7 @@ def sf_tok_of(ex, st, x):
     return x
 
 
-SPEC_FUNCS = {"tree_wf": sf_tree_wf, "tok_of": sf_tok_of, "keys_are": sf_keys_are, "le_val": sf_le_val, "le_numkind": sf_le_numkind, "lit_numkind": sf_lit_numkind, "has_p_prefix": sf_has_p_prefix, "strip_p": sf_strip_p, "runs": sf_runs, "run_begin": sf_run_begin, "brk": sf_brk, "yield_at": sf_yield_at, "node_id": sf_node_id, "lines_ok": sf_lines_ok, "node_start": sf_node_start, "node_end": sf_node_end, "node_wf": sf_node_wf, "wf_error": sf_wf_error, "tok_wf": sf_tok_wf, "toks_wf": sf_toks_wf, "lines_left": sf_lines_left, "indent_col": sf_indent_col, "indents_wf": sf_indents_wf, "is_blank_char": sf_is_blank_char, "last": sf_last, "lr_cache_ok": sf_lr_cache_ok, "cache_ok": sf_cache_ok, "cache_has": sf_cache_has, "cache_end": sf_cache_end, "cache_tree": sf_cache_tree, "em_cached": sf_em_cached, "tk_ok": sf_tk_ok, "can_peek": sf_can_peek, "layout": sf_layout, "cache_wf": sf_cache_wf, "truthy": sf_truthy, "is_none": sf_is_none, "pos_le": sf_pos_le,
+SPEC_FUNCS = {"tree_wf": sf_tree_wf, "parts_wf": sf_parts_wf, "tok_of": sf_tok_of, "keys_are": sf_keys_are, "le_val": sf_le_val, "le_numkind": sf_le_numkind, "lit_numkind": sf_lit_numkind, "has_p_prefix": sf_has_p_prefix, "strip_p": sf_strip_p, "runs": sf_runs, "run_begin": sf_run_begin, "brk": sf_brk, "yield_at": sf_yield_at, "node_id": sf_node_id, "lines_ok": sf_lines_ok, "node_start": sf_node_start, "node_end": sf_node_end, "node_wf": sf_node_wf, "wf_error": sf_wf_error, "tok_wf": sf_tok_wf, "toks_wf": sf_toks_wf, "lines_left": sf_lines_left, "indent_col": sf_indent_col, "indents_wf": sf_indents_wf, "is_blank_char": sf_is_blank_char, "last": sf_last, "lr_cache_ok": sf_lr_cache_ok, "cache_ok": sf_cache_ok, "cache_has": sf_cache_has, "cache_end": sf_cache_end, "cache_tree": sf_cache_tree, "em_cached": sf_em_cached, "tk_ok": sf_tk_ok, "can_peek": sf_can_peek, "layout": sf_layout, "cache_wf": sf_cache_wf, "truthy": sf_truthy, "is_none": sf_is_none, "pos_le": sf_pos_le,
               "endmarker_last": sf_endmarker_last, "endmarker_pulled": sf_endmarker_pulled, "gen_pos": sf_gen_pos,
               "gen_len": sf_gen_len, "gen_cat": sf_gen_cat, "gen_count": sf_gen_count, "le_isbytes": sf_le_isbytes, "lit_isbytes": sf_lit_isbytes, "lit_val": sf_lit_val,
               "lit_fold": sf_lit_fold, "has_field": sf_has_field, "is_translation": sf_is_translation, "all_located": sf_all_located, "mode_kind_of": sf_mode_kind_of, "mode_level_of": sf_mode_level_of, "pat_kind": sf_pat_kind, "same_frame": sf_same_frame, "pat_q": sf_pat_q, "gen_item": sf_gen_item, "prefix_of": sf_prefix_of, "tok_type": sf_tok_type}
